@@ -543,6 +543,10 @@ func (d cffDict) readPrivate(p *parser.Parser, strings *cffStrings) (*privateInf
 		return nil, errors.New("cff: missing Private DICT")
 	}
 
+	if int64(pdOffs)+int64(pdSize) > p.Size() {
+		return nil, errors.New("cff: Private DICT extends beyond the end of the data")
+	}
+
 	err := p.SeekPos(int64(pdOffs))
 	if err != nil {
 		return nil, err
